@@ -180,7 +180,9 @@ def eval_case(case):
             out.append(O.V("simulate() raised under a priority rule the API accepts", "C11/rule-raises/" + rec["exc"].split(":")[0],
                            {"exc": rec["exc"], "frules": sorted(set(t.get("frule", 0) for t in case["tasks"]))}))
         out += inversions(S, rec)
-    return {"violations": out, "sig": simcheck.behaviour_sig(S, trace) + (case["ops"][0].get("rule"),),
+    from .. import modelrun
+    return {"violations": out, "disagreements": modelrun.compare(case, trace, modelrun.CONES["C11"]),
+            "sig": simcheck.behaviour_sig(S, trace) + (case["ops"][0].get("rule"),),
             "hist": simcheck.base_hist(S, trace), "nontrivial": (trace[0].get("dump") or {}).get("time", 0) >= 2,
             "summary": {"time": (trace[0].get("dump") or {}).get("time"), "exc": trace[0]["exc"]}}
 
